@@ -54,7 +54,7 @@ MAX_OUTCOMES = 2500
 
 # kind -> parameter type
 KINDS = {
-    "gauss_unit": "real", "gauss_diag": "real", "gauss_scaled": "real", "gauss_sandwich": "real",
+    "gauss_unit": "real", "gauss_diag": "real", "gauss_idiag": "real", "gauss_scaled": "real", "gauss_sandwich": "real",
     "poisson": "pos", "bernoulli": "unit",
     "studentt": "real", "studentt_field": "real", "invgamma": "pos", "invgamma_field": "pos",
     "categorical_ax0": "simplex", "categorical_ax1": "simplex",
@@ -110,7 +110,7 @@ for _n in ("n3r", "n4bal", "n4rms"):
     for _d in ("S", "M"):
         WRAPS["%s_%s_ham" % (_n, _d)] = ("id", "nest%s:%s" % (_d, _n), False, "ic")
         NEST_WRAPS.append("%s_%s_ham" % (_n, _d))
-NEST_KINDS_QUICK = ["gauss_diag", "poisson", "bernoulli", "studentt", "invgamma", "categorical_ax0", "gauss_cdiag",
+NEST_KINDS_QUICK = ["gauss_diag", "gauss_idiag", "poisson", "bernoulli", "studentt", "invgamma", "categorical_ax0", "gauss_cdiag",
                     "vcg_real_full"]
 
 
@@ -297,7 +297,7 @@ def family_for(kind, npix, aux, tier):
     n = npix
     if kind == "gauss_unit":
         return F.Gauss(np.eye(n))
-    if kind == "gauss_diag":
+    if kind in ("gauss_diag", "gauss_idiag"):
         return F.Gauss(np.diag(aux["w"]))
     if kind == "gauss_scaled":
         return F.Gauss(aux["c"] * np.eye(n))
@@ -565,7 +565,7 @@ def _dense_op_class(ift):
 def lib_domain(ift, kind, npix, fam):
     if kind.startswith("categorical"):
         return ift.DomainTuple.make(tuple(ift.UnstructuredDomain(s) for s in fam.shape))
-    if kind in ("gauss_diag", "poisson", "vcg_real_full", "vcg_cplx_approx", "studentt_field"):
+    if kind in ("gauss_diag", "gauss_idiag", "poisson", "vcg_real_full", "vcg_cplx_approx", "studentt_field"):
         return ift.DomainTuple.make(ift.RGSpace(npix, distances=0.7))      # volume must not enter
     return ift.DomainTuple.make(ift.UnstructuredDomain(npix))
 
@@ -586,6 +586,11 @@ def lib_energy(ift, term, npix, d, dom=None):
     if kind == "gauss_diag":
         return ift.GaussianEnergy(data=fld(d), inverse_covariance=ift.DiagonalOperator(fld(aux["w"]),
                                                                                    sampling_dtype=np.float64))
+    if kind == "gauss_idiag":
+        # the same inverse covariance, given as the inverse of the diagonal COVARIANCE operator (an
+        # inverse-flavoured DiagonalOperator: stored diagonal 1/w, actual diagonal w)
+        cov = ift.DiagonalOperator(fld(1. / np.asarray(aux["w"])), sampling_dtype=np.float64)
+        return ift.GaussianEnergy(data=fld(d), inverse_covariance=cov.inverse)
     if kind == "gauss_scaled":
         return ift.GaussianEnergy(data=fld(d), inverse_covariance=ift.ScalingOperator(dom, aux["c"], np.float64))
     if kind == "gauss_sandwich":
